@@ -32,6 +32,7 @@ type Conn struct {
 	closeSeen int
 	closeDone chan struct{} // closed when every listener has handled a close event
 	once      sync.Once
+	decOnce   sync.Once
 
 	gateArrived chan struct{} // non-nil: Close() signals here and waits for gateRelease
 	gateRelease chan struct{}
@@ -43,6 +44,10 @@ type shim struct {
 }
 
 func (s *shim) OnEvent(ev api.ConnectionEvent) {
+	if ev.IsClose() {
+		// before any listener (hence before the pool's own bookkeeping) handles the close
+		s.c.decOnce.Do(func() { atomic.AddInt32(&s.c.reg.openNow, -1) })
+	}
 	s.inner.OnEvent(ev)
 	if ev.IsClose() {
 		s.c.mu.Lock()
@@ -66,6 +71,13 @@ func (c *Conn) Connect() error {
 	err := c.ClientConnection.Connect()
 	if err == nil {
 		c.reg.connected(c)
+		n := atomic.AddInt32(&c.reg.openNow, 1)
+		for {
+			m := atomic.LoadInt32(&c.reg.maxOpen)
+			if n <= m || atomic.CompareAndSwapInt32(&c.reg.maxOpen, m, n) {
+				break
+			}
+		}
 	}
 	return err
 }
@@ -119,7 +131,15 @@ type Registry struct {
 	conns []*Conn          // connected ones, index = ID-1
 	byID  map[uint64]*Conn // by mosn connection id
 	all   []*Conn
+
+	openNow int32 // connected and no close event seen yet
+	maxOpen int32 // high-water mark of openNow
 }
+
+// MaxOpen is the largest number of simultaneously open connections of the pool. A connection counts
+// from the return of Connect() until its close event is about to be delivered, i.e. never longer than
+// the pool itself can count it.
+func (r *Registry) MaxOpen() int { return int(atomic.LoadInt32(&r.maxOpen)) }
 
 func NewRegistry() *Registry { return &Registry{byID: map[uint64]*Conn{}} }
 
